@@ -4,4 +4,4 @@
 sfx=$1; shift
 run1() { id=$1; sfx=$2; /verif/tools/mutant_run.sh /tmp/seed-${id}${sfx} $id --tier quick > /tmp/seed-${id}${sfx}.out 2>&1; echo "$id rc=$? $(grep -c ^VIOLATION /tmp/seed-${id}${sfx}.out) violations"; }
 export -f run1
-printf "%s\n" "$@" | xargs -P 3 -I{} bash -c "run1 {} $sfx"
+printf "%s\n" "$@" | xargs -P ${WAVE_P:-3} -I{} bash -c "run1 {} $sfx"
